@@ -50,6 +50,8 @@ def val(node, env):
 def run(chk):
     src = chk.src
     fn = src.func(RA, Q)
+    from ..core.srcmodel import sink_bindings
+    sink_bindings(fn.body)       # a decoder and its unit arguments chosen first and called once -> one call per arm
     rc = src.func(RA, '_resolve_columns')
     chk.explanation = ('The column-set and plumbing clauses of read_asdf are decided structurally: every table column is added under a '
                        'membership test of its own name in the resolved load list (PID fields through the pid_kwargs comprehension over the '
@@ -338,7 +340,22 @@ def run(chk):
                 and isinstance(n.slice, ast.Constant) and isinstance(n.slice.value, str):
             q, decoder_arg, schema = getattr(n, '_parent', None), False, False
             child = n
+            key_ = n.slice.value
+
+            def _has_key_test(t_):
+                return any(isinstance(c_, ast.Compare) and len(c_.ops) == 1 and isinstance(c_.ops[0], ast.In) and isinstance(c_.left, ast.Constant)
+                           and c_.left.value == key_ and unparse(c_.comparators[0]) == 'header' for c_ in ast.walk(t_))
+            def _has_key_test_for(t_, k_):
+                return any(isinstance(c_, ast.Compare) and len(c_.ops) == 1 and isinstance(c_.ops[0], ast.In) and isinstance(c_.left, ast.Constant)
+                           and c_.left.value == k_ and unparse(c_.comparators[0]) == 'header' for c_ in ast.walk(t_))
             while q is not None and q is not fn:
+                # the read is protected by a membership test of the same key: an earlier conjunct of the same `and` (short circuit) or an enclosing `if`
+                if isinstance(q, ast.BoolOp) and isinstance(q.op, ast.And) and child in q.values and any(_has_key_test(v_) for v_ in q.values[:q.values.index(child)]):
+                    schema = True
+                if isinstance(q, ast.If) and child in q.body and _has_key_test(q.test):
+                    schema = True
+                if isinstance(q, ast.IfExp) and child is q.body and _has_key_test(q.test):
+                    schema = True
                 if isinstance(q, ast.Call) and (dotted(q.func) or '').startswith('unpack_'):
                     decoder_arg = True
                 if isinstance(q, ast.Assign) and len(q.targets) == 1 and isinstance(q.targets[0], ast.Name) and q.targets[0].id in to_decoder:
@@ -349,6 +366,10 @@ def run(chk):
                     for c in ast.walk(q.test):
                         if isinstance(c, ast.Call) and isinstance(c.func, ast.Attribute) and c.func.attr == 'get' and unparse(c.func.value) == 'header' \
                                 and c.args and isinstance(c.args[0], ast.Constant) and c.args[0].value in ('SimSet',):
+                            schema = True
+                        # the same with a guarded subscript:  'SimSet' in header and header['SimSet'] == <constant>
+                        if isinstance(c, ast.Compare) and len(c.ops) == 1 and isinstance(c.ops[0], ast.Eq) and unparse(c.left) in ("header['SimSet']",) \
+                                and isinstance(c.comparators[0], ast.Constant) and key_ != 'SimSet' and _has_key_test_for(q.test, 'SimSet'):
                             schema = True
                 child, q = q, getattr(q, '_parent', None)
             (hreq if decoder_arg or schema else hbad).append(n)
@@ -374,6 +395,8 @@ def decoder_call(src, dec):
     """(ok, why, node) for the single call of decoder `dec` in read_asdf: arguments resolved through the function's locals;
     the row count taken right after the call must be the larger of the two returned counts."""
     fn = src.func(RA, Q)
+    from ..core.srcmodel import sink_bindings
+    sink_bindings(fn.body)
     ldefs = {}
     for n_ in walk_no_nested(fn):
         if isinstance(n_, ast.Assign) and len(n_.targets) == 1 and isinstance(n_.targets[0], ast.Name):
